@@ -1,4 +1,3 @@
-import itertools
 import warnings
 from copy import copy
 from typing import Any, Optional, Union, Tuple as TypedTuple, List
@@ -621,7 +620,12 @@ class PostgreSQLQueryBuilder(QueryBuilder):
                 raise QueryException("Returning can't be used in this query")
 
             table_is_insert_or_update_table = field.table in {self._insert_table, self._update_table}
-            join_tables = set(itertools.chain.from_iterable([j.criterion.tables_ for j in self._joins]))
+            join_tables = {j.item for j in self._joins}
+            for j in self._joins:
+                # USING and CROSS joins have no criterion
+                criterion = getattr(j, "criterion", None)
+                if criterion is not None:
+                    join_tables |= criterion.tables_
             join_and_base_tables = set(self._from) | join_tables
             table_not_base_or_join = bool(term.tables_ - join_and_base_tables)
             if not table_is_insert_or_update_table and table_not_base_or_join:
